@@ -178,7 +178,7 @@ func randV6(r *rand.Rand) netip.Addr {
 func c14Specs(e *Env, r *rand.Rand) []string {
 	var specs []string
 	add := func(s string) { specs = append(specs, s) }
-	reps := e.Pick(6, 120)
+	reps := e.Pick(6, 600)
 	for rep := 0; rep < reps; rep++ {
 		for n := 0; n <= 32; n++ {
 			a := randV4(r)
@@ -196,7 +196,7 @@ func c14Specs(e *Env, r *rand.Rand) []string {
 		}
 	}
 	// non-contiguous masks
-	for i := 0; i < e.Pick(200, 2000); i++ {
+	for i := 0; i < e.Pick(200, 20000); i++ {
 		var m [4]byte
 		r.Read(m[:])
 		add(fmt.Sprintf("%s/%s", randV4(r), netip.AddrFrom4(m)))
@@ -217,7 +217,7 @@ func c14Specs(e *Env, r *rand.Rand) []string {
 		add(fmt.Sprintf("10.0.0.0/%d", n))
 	}
 	// ranges
-	for i := 0; i < e.Pick(300, 4000); i++ {
+	for i := 0; i < e.Pick(300, 40000); i++ {
 		a, b := randV4(r), randV4(r)
 		if r.Intn(3) == 0 {
 			w := r.Intn(300)
@@ -256,7 +256,7 @@ func c14Specs(e *Env, r *rand.Rand) []string {
 		}
 	}
 	// singles and bad addresses
-	for i := 0; i < e.Pick(100, 1000); i++ {
+	for i := 0; i < e.Pick(100, 10000); i++ {
 		add(randV4(r).String())
 		add(randV6(r).String())
 	}
